@@ -405,6 +405,25 @@ func (m *Model) applyRetain(oi int, op *Op, w *Window) {
 	} else {
 		delete(m.AmbigRetained, p.Topic)
 	}
+	if op.Kind == "publish" {
+		// a publish whose bytes never reached the broker (its connection was closed first) has no effect; one whose
+		// connection or session is touched by another operation of the window (takeover, drop) may or may not have
+		delivered := false
+		for _, e := range m.r.H.Evs {
+			if e.Kind == "in" && e.Last && e.hasOp && e.Op == oi {
+				delivered = true
+			}
+		}
+		if !delivered {
+			if n <= 1 {
+				return
+			}
+		} else if pc := m.connOfOp(oi); pc != nil && len(w.Ops) > 1 {
+			if t := m.Touched(w, oi); t.Conns[pc.Idx] || (s != nil && t.Sess[s.ID]) {
+				m.AmbigRetained[p.Topic] = true
+			}
+		}
+	}
 	if p.Payload == "" {
 		delete(m.Retained, p.Topic)
 		return
